@@ -124,12 +124,23 @@ func validateGoCallableFunc(fn interface{}) error {
 		return fmt.Errorf("func must be a Go function")
 	}
 
+	if v.IsNil() {
+		return fmt.Errorf("func must not be a nil function")
+	}
+
 	t := v.Type()
 	switch t.NumOut() {
 	case 1:
 	case 2:
 		if !t.Out(1).Implements(typeError) {
 			return fmt.Errorf("func must return an error as its second value")
+		}
+		// The result is tested for nil after each call: an error
+		// type that cannot be nil (a struct) would make that panic.
+		switch t.Out(1).Kind() {
+		case reflect.Interface, reflect.Ptr, reflect.Map, reflect.Slice, reflect.Func, reflect.Chan:
+		default:
+			return fmt.Errorf("func must return an error that can be nil as its second value")
 		}
 	default:
 		return fmt.Errorf("func must return either 1 or 2 values")
